@@ -76,3 +76,11 @@ class PPrintFail:
     def run(self):
         print('probe-out-%d' % self.n)
         raise ValueError('probe')
+
+
+@labtech.task(cache=None)
+class PSum:
+    dep: object
+
+    def run(self):
+        return ('sum', self.dep.result)
